@@ -204,19 +204,35 @@ theorem en_D {s : State} {o x} (h : enabled s (.D o x) = true) :
 theorem en_launch {s : State} {o} (h : enabled s (.launch o) = true) : launchOk s o = true := by
   simpa [enabled, guards] using h
 
+theorem en_joblog' {s : State} {o} (h : enabled s (.joblog o) = true) :
+    o.r.isJob = true ∧ (s.m o).disk.has .jobinfo = true ∧ o ∈ s.alive := by
+  simpa [enabled, guards, SSet.has, and_assoc] using h
+
 theorem en_joblog {s : State} {o} (h : enabled s (.joblog o) = true) :
-    o.r.isJob = true ∧ (s.m o).disk.has .jobinfo = true := by
-  simpa [enabled, guards, SSet.has] using h
+    o.r.isJob = true ∧ (s.m o).disk.has .jobinfo = true :=
+  ⟨(en_joblog' h).1, (en_joblog' h).2.1⟩
+
+theorem en_jobend' {s : State} {o x} (h : enabled s (.jobend o x) = true) :
+    o.r.isJob = true ∧ (x = .complete ∨ x = .errors ∨ x = .assert) ∧
+    (s.m o).disk.has .jobinfo = true ∧ (s.m o).disk.has .log = true ∧
+    (s.m o).disk.has .complete = false ∧ (s.m o).disk.has .assert = false ∧ o ∈ s.alive := by
+  simpa [enabled, guards, SSet.has, and_assoc, or_assoc] using h
 
 theorem en_jobend {s : State} {o x} (h : enabled s (.jobend o x) = true) :
     o.r.isJob = true ∧ (x = .complete ∨ x = .errors ∨ x = .assert) ∧
     (s.m o).disk.has .jobinfo = true ∧ (s.m o).disk.has .log = true ∧
     (s.m o).disk.has .complete = false ∧ (s.m o).disk.has .assert = false := by
-  simpa [enabled, guards, SSet.has, and_assoc, or_assoc] using h
+  obtain ⟨a, b, c, d, e, f, _⟩ := en_jobend' h
+  exact ⟨a, b, c, d, e, f⟩
+
+theorem en_silentfail' {s : State} {o} (h : enabled s (.silentfail o) = true) :
+    s.phase ≠ .crashed ∧ o.r.isJob = true ∧ (s.m o).disk.has .jobinfo = true ∧ o ∈ s.alive := by
+  simpa [enabled, guards, SSet.has, and_assoc] using h
 
 theorem en_silentfail {s : State} {o} (h : enabled s (.silentfail o) = true) :
     s.phase ≠ .crashed ∧ o.r.isJob = true ∧ (s.m o).disk.has .jobinfo = true := by
-  simpa [enabled, guards, SSet.has, and_assoc] using h
+  obtain ⟨a, b, c, _⟩ := en_silentfail' h
+  exact ⟨a, b, c⟩
 
 theorem en_reset {s : State} {o} (h : enabled s (.reset o) = true) : resetOk s o = true := by
   simpa [enabled, guards] using h
